@@ -80,8 +80,10 @@ class SwitchWriteHandler(AbstractWriteHandler):
         else:
             list_of_switch_cases = list(iterate_switch_edges_using_edges_and_op(exits, op))
             # Build a list of all edges that will be visited multiple times, make sure to generate a label for them
+            switch_end_vertex = find_switch_end_label(self.start_vertex.graph, m.switch_id)
             for e, _, __ in list_of_switch_cases:
-                if e in already_printed_edges:
+                if e in already_printed_edges and e.target_vertex != switch_end_vertex:
+                    # (cases that lead straight to the end of the switch are simply printed as a break each time)
                     edges_that_will_be_visited_multiple_times.add(e)
                 already_printed_edges.add(e)
             already_printed_edges = set()  # reuse
@@ -100,7 +102,7 @@ class SwitchWriteHandler(AbstractWriteHandler):
                         # If this will be visited multiple times, we need a label
                         if e in edges_that_will_be_visited_multiple_times and e not in already_printed_edges:
                             self.decompiler.write_stmnt(f"@switch{m.switch_id}_{e.index};")
-                        if e in already_printed_edges:
+                        if e in already_printed_edges and e in edges_that_will_be_visited_multiple_times:
                             # Write the label jump instead
                             self.decompiler.write_stmnt(f"jump @switch{m.switch_id}_{e.index};")
                         else:
